@@ -183,6 +183,15 @@ func staleDisk(text string, ref *CLIOutcome) []DiskEntry {
 	return disk
 }
 
+func variedEnv(r *Rng) []string {
+	return []string{
+		"TZ=" + r.Pick([]string{"Pacific/Kiritimati", "Etc/GMT+12", "Asia/Shanghai", "America/New_York"}),
+		"LANG=" + r.Pick([]string{"zh_CN.UTF-8", "C", "de_DE.ISO-8859-1"}), "LC_ALL=" + r.Pick([]string{"zh_CN.UTF-8", "C", "tr_TR.UTF-8"}),
+		"USER=" + r.Pick([]string{"alice", "buildbot"}), "LOGNAME=alice", "HOME=/home/" + r.Pick([]string{"alice", "ci"}), "HOSTNAME=buildbox7",
+		"COLUMNS=" + r.Pick([]string{"40", "200"}), "TERM=dumb", "NO_COLOR=1", "CI=true", "GOMAXPROCS=" + r.Pick([]string{"1", "3", "16"}),
+	}
+}
+
 func c13CLI(c *Ctx, n int) error {
 	return ParallelFor(n, c.Workers, func(i int) error {
 		seed := SubSeed(c.Seed, "c13cli", i)
@@ -232,7 +241,10 @@ func c13CLI(c *Ctx, n int) error {
 		cfgs = append(cfgs, struct {
 			name string
 			f    func(*SchedConfig)
-		}{"disk0-stale-output", func(s *SchedConfig) {}})
+		}{"disk0-stale-output", func(s *SchedConfig) {}}, struct {
+			name string
+			f    func(*SchedConfig)
+		}{"env-vary", func(s *SchedConfig) {}})
 		for k, cf := range cfgs {
 			cfg := s0()
 			cfg.Seed = SubSeed(seed, cf.name, k)
@@ -241,6 +253,12 @@ func c13CLI(c *Ctx, n int) error {
 			if cf.name == "disk0-stale-output" {
 				wi.Disk0 = staleDisk(text, o0)
 				c.ev.Fire("disk0_stale_files", 1)
+			}
+			if cf.name == "env-vary" {
+				// same DSL, same flags, another user's shell on another day: the
+				// process environment is part of "process", not of the input
+				wi.Env = variedEnv(r)
+				c.ev.Fire("process_environment_varied", 1)
 			}
 			oi, err := c.sc.RunCLI(wi)
 			if err != nil {
